@@ -374,7 +374,13 @@ def phh_pair(tid, spec, rng, pol, cut_p=0.3, user_fields=True):
                 raised = True
             flags.append(['a history with an action after the end of the hand is reported as an error', raised])
     except Exception as e:  # noqa: BLE001
-        flags.append([f'the loaded history replays without error ({type(e).__name__}: {str(e)[:80]})', False])
+        import traceback
+        tb = traceback.format_exc()
+        if isinstance(e, (AssertionError, ZeroDivisionError)) and 'push_chips' in tb:
+            # the known 'orphan pot' family reached through the replay's mechanical completion of a showdown
+            flags.append(['orphan-pot: the replay ran into a pot without a contender', False])
+        else:
+            flags.append([f'the loaded history replays without error ({type(e).__name__}: {str(e)[:80]})', False])
     recA['steps'] = [ev for ev in recA['steps']]
     if stB is None:
         return {'tid': tid, 'kind': 'phh', 'A': recA, 'B': recA, 'sync': [], 'flags': flags}
